@@ -299,6 +299,9 @@ pub const EV_GRANT: u32 = 24;
 /// Pages released: a=page-resource kind (0 freelist, 1 block, 2 monotone-reset, 3 region-reset), b=start, c=pages.
 pub const EV_RELEASE: u32 = 25;
 /// First kind number available to the harness' own (binding-side) events.
+/// A monotone page resource was reset: a = page resource id, b = new top (0: everything
+/// released), c = 1 for `reset_cursor`.
+pub const EV_PR_RESET: u32 = 26;
 pub const EV_USER_BASE: u32 = 1000;
 
 // ---------------------------------------------------------------------------------------------
@@ -728,3 +731,137 @@ pub fn side_metadata_reserved_range() -> (Address, usize) {
 
 pub use crate::policy::immix::block::{Block as ImmixBlock, BlockState as ImmixBlockState};
 pub use crate::policy::immix::line::Line as ImmixLine;
+
+
+// ---------------------------------------------------------------------------------------------
+// spaces, page resources, address resolution, Immix lines
+// ---------------------------------------------------------------------------------------------
+
+/// The raw bits of a space descriptor.
+pub fn descriptor_bits(d: crate::util::heap::space_descriptor::SpaceDescriptor) -> usize {
+    d.verif_bits()
+}
+
+/// What a space looks like from outside.
+#[derive(Clone, Debug)]
+pub struct SpaceInfo {
+    /// Space name.
+    pub name: &'static str,
+    /// Identity of the space's page resource as it appears in `EV_GRANT`/`EV_RELEASE`/`EV_PR_RESET`.
+    pub pr_id: usize,
+    /// Raw descriptor bits.
+    pub descriptor: usize,
+    /// Contiguous space?
+    pub contiguous: bool,
+    /// Start of a contiguous space.
+    pub start: Address,
+    /// Extent of a contiguous space.
+    pub extent: usize,
+    /// `PageResource::reserved_pages`.
+    pub reserved_pages: usize,
+    /// `PageResource::committed_pages`.
+    pub committed_pages: usize,
+}
+
+/// One entry per space of the plan that has a page resource.
+pub fn space_table<VM: VMBinding>(mmtk: &crate::MMTK<VM>) -> Vec<SpaceInfo> {
+    let mut out = vec![];
+    mmtk.get_plan().for_each_space(&mut |space| {
+        // these two have neither a page resource nor a `CommonSpace`
+        if matches!(space.get_name(), "LockFreeImmortalSpace" | "MallocSpace") {
+            return;
+        }
+        let c = space.common();
+        let pr = space.get_page_resource();
+        out.push(SpaceInfo {
+            name: c.name,
+            pr_id: pr.common() as *const _ as usize,
+            descriptor: c.descriptor.verif_bits(),
+            contiguous: c.contiguous,
+            start: c.start,
+            extent: c.extent,
+            reserved_pages: pr.reserved_pages(),
+            committed_pages: pr.committed_pages(),
+        });
+    });
+    out
+}
+
+/// Name of the SFT entry that covers `addr` (`SFT_MAP.get_checked`).
+pub fn sft_name(addr: Address) -> &'static str {
+    crate::mmtk::SFT_MAP.get_checked(addr).name()
+}
+
+/// Raw bits of the VM map's space descriptor for `addr`.
+pub fn descriptor_for_address(addr: Address) -> usize {
+    crate::mmtk::VM_MAP.get_descriptor_for_address(addr).verif_bits()
+}
+
+/// A view of the Immix space that contains an address.
+pub struct ImmixView<VM: VMBinding> {
+    space: &'static crate::policy::immix::ImmixSpace<VM>,
+}
+
+/// The Immix space (of any plan) whose address range contains `addr`.
+pub fn immix_space_of<VM: VMBinding>(mmtk: &'static crate::MMTK<VM>, addr: Address) -> Option<ImmixView<VM>> {
+    let mut found = None;
+    mmtk.get_plan().for_each_space(&mut |space| {
+        if found.is_none() && space.address_in_space(addr) {
+            if let Some(ix) = space.downcast_ref::<crate::policy::immix::ImmixSpace<VM>>() {
+                // the plan lives as long as the MMTK instance
+                found = Some(ImmixView {
+                    space: unsafe { &*(ix as *const _) },
+                });
+            }
+        }
+    });
+    found
+}
+
+impl<VM: VMBinding> ImmixView<VM> {
+    /// Space name.
+    pub fn name(&self) -> &'static str {
+        crate::policy::space::Space::get_name(self.space)
+    }
+    /// The current line mark state.
+    pub fn line_mark_state(&self) -> u8 {
+        self.space.line_mark_state.load(std::sync::atomic::Ordering::SeqCst)
+    }
+    /// The line state hole search treats as unavailable besides the current one.
+    pub fn line_unavail_state(&self) -> u8 {
+        self.space.verif_line_unavail_state()
+    }
+    /// The mark byte of the line containing `addr`.
+    pub fn line_mark(&self, addr: Address) -> u8 {
+        crate::policy::immix::line::Line::verif_mark_byte(addr)
+    }
+    /// The block state byte of the block containing `addr`, decoded and re-encoded.
+    pub fn block_state(&self, addr: Address) -> crate::policy::immix::block::BlockState {
+        use crate::util::linear_scan::Region;
+        crate::policy::immix::block::Block::from_unaligned_address(addr).get_state()
+    }
+    /// All holes `get_next_available_lines` reports in the block containing `addr`, as
+    /// `[start, end)` addresses, obtained the way the allocator does: search from the block start,
+    /// then from the end of each hole.
+    pub fn holes_in_block(&self, addr: Address) -> Vec<(Address, Address)> {
+        use crate::policy::immix::block::Block;
+        use crate::util::linear_scan::Region;
+        let block = Block::from_unaligned_address(addr);
+        let mut out = vec![];
+        let mut cursor = block.start_line();
+        let end = block.end_line();
+        while cursor < end {
+            match self.space.get_next_available_lines(cursor) {
+                Some((s, e)) => {
+                    out.push((s.start(), e.start()));
+                    if e <= cursor {
+                        break;
+                    }
+                    cursor = e;
+                }
+                None => break,
+            }
+        }
+        out
+    }
+}
